@@ -171,3 +171,46 @@ package config
 //@   loop 2 invariant[only-known-files] forall(p, string, fsdom[p] ==> in(p, fs.backUp.data) || in(p, fileSystemSnapshot.data))
 //@   ensures[restore-content] result == nil ==> forall(p, string, in(p, fs.backUp.data) ==> fsdom[p] && fsys[p] == fs.backUp.data[p])
 //@   ensures[restore-extra] result == nil ==> forall(p, string, fsdom[p] ==> in(p, fs.backUp.data))
+
+// where the sections of a configuration payload are stored
+//@ pure environment.GetStreamsFlowsDirectory
+//@ pure environment.GetQuotasDirectory
+//@ pure environment.GetPathParamsDirectory
+//@ pure environment.GetGatewayConfigPath
+//@ pure environment.GetMetricsConfigFilePath
+// filepath.Join of a directory and a file name (trusted: a deterministic function of the two)
+//@ ghost func joinp(dir string, name string) string
+//@ extern filepath.Join
+//@   modifies nothing
+//@   ensures len(elem) == 2 ==> result == joinp(elem[0], elem[1])
+//@ ghost func flowPath(n string) string = joinp(environment.GetStreamsFlowsDirectory(), n)
+//@ ghost func quotaPath(n string) string = joinp(environment.GetQuotasDirectory(), n)
+//@ ghost func paramsPath(n string) string = joinp(environment.GetPathParamsDirectory(), n)
+//@ ghost func gatewayPath() string = environment.GetGatewayConfigPath()
+//@ ghost func metricsPath() string = environment.GetMetricsConfigFilePath()
+
+//@ func (*FileSystemOperation).SaveFlow
+//@   prop C08
+//@   modifies fsdom, fsys
+//@   ensures[written] result == nil ==> fsdom[flowPath(fileName)] && fsys[flowPath(fileName)] == content
+//@   ensures[only-this-file] forall(p, string, p != flowPath(fileName) ==> fsdom[p] == old(fsdom)[p] && fsys[p] == old(fsys)[p])
+//@ func (*FileSystemOperation).SaveQuota
+//@   prop C08
+//@   modifies fsdom, fsys
+//@   ensures[written] result == nil ==> fsdom[quotaPath(fileName)] && fsys[quotaPath(fileName)] == content
+//@   ensures[only-this-file] forall(p, string, p != quotaPath(fileName) ==> fsdom[p] == old(fsdom)[p] && fsys[p] == old(fsys)[p])
+//@ func (*FileSystemOperation).SavePathParams
+//@   prop C08
+//@   modifies fsdom, fsys
+//@   ensures[written] result == nil ==> fsdom[paramsPath(fileName)] && fsys[paramsPath(fileName)] == content
+//@   ensures[only-this-file] forall(p, string, p != paramsPath(fileName) ==> fsdom[p] == old(fsdom)[p] && fsys[p] == old(fsys)[p])
+//@ func (*FileSystemOperation).SaveGatewayConfig
+//@   prop C08
+//@   modifies fsdom, fsys
+//@   ensures[written] result == nil ==> fsdom[gatewayPath()] && fsys[gatewayPath()] == content
+//@   ensures[only-this-file] forall(p, string, p != gatewayPath() ==> fsdom[p] == old(fsdom)[p] && fsys[p] == old(fsys)[p])
+//@ func (*FileSystemOperation).SaveMetricsConfig
+//@   prop C08
+//@   modifies fsdom, fsys
+//@   ensures[written] result == nil ==> fsdom[metricsPath()] && fsys[metricsPath()] == content
+//@   ensures[only-this-file] forall(p, string, p != metricsPath() ==> fsdom[p] == old(fsdom)[p] && fsys[p] == old(fsys)[p])
